@@ -120,6 +120,7 @@ func ruleC16(w *World, r *Report) {
 		"R16.6 tables with ternary/range fields get a priority whose minimum under verifyPDR's guard is ≥ 1 (interval argument), others 0; R16.7 meter/counter indices come from pools filled by loops bounded by the P4Info size of the same array, slice/TC index bound ≤ slice meter size, pre/post counters equal-sized; R16.8 every constant and id→name map entry of internal/p4constants agrees with the P4Info and every P4Info object of a generated kind has its constant; R16.9 the generator ranges over maps only to collect keys that are sorted before use, and reads no clock/random/environment."
 	r.Explanation += " R16.8 converter bytes reach match fields and parameters unchanged (leading zeros may be stripped); R16.9 the value passed as tc is the configured class itself (QFIToTC[qfi] / DefaultTC), so the property's bound tc ≤ 3 applies to it."
 	r.Explanation += " R16.9 (cont.) the sliceID argument of every builder is the configured slice; R16.10 the generator's output file is written with truncation."
+	r.Explanation += " R16.9 (cont.) no os.Args in the generator; keys may be collected by indexed stores; R16.11 ClearTables sends back the entity it read."
 	r.NotDecided = "values bounded only by the property's assumptions (QFI ≤ 63, slice ≤ 15, TC ≤ 3) are assumed, not proved; what the switch does with valid writes"
 	info := loadP4Info(w.Repo, P)
 	assumptions := map[string]int64{"slice_id": 15, "tc": 3, "qfi": 63}
